@@ -147,10 +147,8 @@ def _run_one(args: Tuple[str, str, str]) -> Tuple[str, List[str], Optional[str]]
         return desc, ["analysis-error"], str(e)
     for p in PROPS:
         try:
-            chk = Check(p, repo, "quick")
-            _MODS[p].run(chk)
-            from .rules.wellformed import check as _wf
-            _wf(chk)
+            from .runner import run_rules
+            chk = run_rules(p, repo, "quick")
             v = [x for x in chk.violations() if (p, x.rule, x.construct) not in known]
             if v:
                 caught.append(p)
